@@ -63,6 +63,18 @@ fn theme_doc(rng: &mut Rng) -> String {
     s
 }
 
+/// local styles requested by the document and withdrawn again (so the output carries no randomised id at
+/// all), with random functions before and after: asking for the id must not disturb the seeded generator
+fn local_toggle_doc(rng: &mut Rng) -> String {
+    let mut s = String::from("<svg>");
+    if rng.chance(1, 2) { s.push_str(&format!("<rect xy=\"{{{{randint(0, 40)}}}} 0\" wh=\"{} 3\"/>", 1 + rng.below(9))); }
+    s.push_str(&format!("<config use-local-styles=\"true\"{}/>", rng.pick(&["", " border=\"3\"", " theme=\"bold\""])));
+    if rng.chance(1, 2) { s.push_str("<rect xy=\"{{randint(0, 40)}} 5\" wh=\"2\" class=\"d-fill-red\"/>"); }
+    s.push_str("<config use-local-styles=\"false\"/>");
+    s.push_str(&format!("<circle cxy=\"{{{{randint(0, 60)}}}} {{{{random() * 20}}}}\" r=\"{}\"/><rect xy=\"^|h {{{{randint(1, 9)}}}}\" wh=\"2\"/></svg>", 1 + rng.below(4)));
+    s
+}
+
 fn random_doc(rng: &mut Rng) -> String {
     let mut s = String::from("<svg>");
     let mut late: Vec<String> = vec![];
@@ -179,7 +191,7 @@ pub fn run(rep: &mut Report, tier: &str, seed: u64) -> Result<(), String> {
     let mut st = Stream::new("repeat/in-process", "oracle", "generated svgdx documents, style-heavy documents (many d-* classes: the sets behind the injected rules and definitions; several failing elements), random configurations without local styles: transform_str twice and transform_stream once in one process give identical bytes or the identical error");
     let mut r1 = rng.fork();
     for i in 0..n_in {
-        let doc = if i % 2 == 0 { theme_doc(&mut r1) } else { xmlgen::svgdx_doc(&mut r1, true) };
+        let doc = if i % 9 == 8 { local_toggle_doc(&mut r1) } else if i % 2 == 0 { theme_doc(&mut r1) } else { xmlgen::svgdx_doc(&mut r1, true) };
         let cfg = gen_cfg(&mut r1);
         st.case(&doc, true, || json!({"document": doc}));
         match judge(&doc, &cfg, None, &dir, "x") {
@@ -191,7 +203,7 @@ pub fn run(rep: &mut Report, tier: &str, seed: u64) -> Result<(), String> {
 
     let mut st = Stream::new("repeat/new-process", "oracle", "the same kinds of documents through the svgdx command in three fresh processes (own hash seeds each): stdout bytes, exit status and the error text are identical and equal to the library result");
     for i in 0..n_proc {
-        let doc = if i % 3 != 2 { theme_doc(&mut r1) } else { xmlgen::svgdx_doc(&mut r1, true) };
+        let doc = if i % 5 == 4 { local_toggle_doc(&mut r1) } else if i % 3 != 2 { theme_doc(&mut r1) } else { xmlgen::svgdx_doc(&mut r1, true) };
         let cfg = gen_cfg(&mut r1);
         st.case(&doc, true, || json!({"document": doc}));
         match judge(&doc, &cfg, bin.as_deref(), &dir, &format!("c06-{}-{i}", std::process::id())) {
